@@ -5,7 +5,7 @@
 From Coq Require Import List String Ascii Bool Permutation Lia.
 Import ListNotations.
 From DI Require Import Syntax Tokens Bounds Param Subs Superset Substitute Spec RustSem Group Search Gen GenMain Validate IMap Hygiene Dispatch Examples ExamplesGroup ExamplesF16.
-From DI.proofs Require Import Basics SupersetSound SupersetExact SupersetComplete SupersetWf SubstituteProofs SubstituteSpec BoundsProofs DispatchProofs GroupProofs SearchProofs SearchFlat SearchNested SearchRows FlatSemantics FlatConcrete GenProofs GenMainProofs GenMainArgs ParamProofs ParamNames ParamAlpha ParamCanon ParamOrder ParamIdem RustSemProofs ValidateProofs IMapProofs HygieneProofs.
+From DI.proofs Require Import Basics SupersetSound SupersetExact SupersetComplete SupersetWf SubstituteProofs SubstituteSpec BoundsProofs DispatchProofs GroupProofs SearchProofs SearchFlat SearchNested SearchRows FlatSemantics FlatConcrete GenProofs GenMainProofs GenMainArgs GenMainKeys ParamProofs ParamNames ParamAlpha ParamCanon ParamOrder ParamIdem RustSemProofs ValidateProofs IMapProofs HygieneProofs.
 
 (* ===================================================================================== *)
 (* C09 -- header generalisation is exact first-order matching                             *)
@@ -296,6 +296,42 @@ Theorem C01_main_items_forward : forall tdef titems idx fb g items p,
             (tkids titems) items.
 Proof. exact main_items_trait_mode. Qed.
 Print Assumptions C01_main_items_forward.
+
+(* the where-clause of the generated main impl names every dispatch key of the family: for each
+   key there is a predicate on exactly its bounded type listing a trait that is the key's trait
+   as far as dispatch-key identity goes (same path and generic arguments, C12_iff_identity), so
+   two keys of one parameter that differ only in the trait's arguments or qualifying segments
+   are both named (seed C12h: a main impl that drops one of them, E0277) *)
+Theorem C01_main_impl_names_every_key : forall idx first_blk g preds b tr a,
+  key_preds idx first_blk g = Some preds ->
+  In ((b, tr), a) (abg_idents g) -> tb_eqb tr tr = true ->
+  exists trs t,
+    In (Node (K "PredType" "")
+             (b :: (if existsb (term_eqb b) (ab_unsized g) then [maybe_sized] else []) ++ map plain_bound trs)) preds /\
+    In t trs /\ tb_eqb t tr = true.
+Proof. exact key_preds_name_every_key. Qed.
+Print Assumptions C01_main_impl_names_every_key.
+
+(* non-vacuity: the first family of the example invocation has keys, each reflexive for tb_eqb,
+   and its key predicates are generated *)
+Example C01_keys_nonvacuous :
+  match search 20 ex_blocks with
+  | Some (e :: _) =>
+      let g := fst (snd e) in
+      match snd (snd e) with
+      | m0 :: _ =>
+          match nth_error ex_blocks m0 with
+          | Some fb =>
+              (key_preds 0 fb g <> None) /\ (abg_idents g <> []) /\
+              (forallb (fun id : tbid * string => tb_eqb (snd (fst id)) (snd (fst id))) (abg_idents g) = true)
+          | None => False
+          end
+      | [] => False
+      end
+  | _ => False
+  end.
+Proof. vm_compute. repeat split; discriminate. Qed.
+Print Assumptions C01_keys_nonvacuous.
 
 (* ===================================================================================== *)
 (* C11 -- family formation.  The search is validated per grouping by the checker gi_check   *)
